@@ -279,11 +279,19 @@ def run_cross_val(tape, stats):
     snap = snapshot_arrays(ds)
     args = (ds.coordinates, ds.data_arg(), ds.weights_arg())
 
+    # the caller may hand the SAME cross-validator object to several calls (it must not be used up or altered)
+    shared_cv = build_cv(cvspec) if tape.coin(0.5, "reuse_cv_object") else None
+    if shared_cv is not None:
+        stats["probes"]["cv_object_reused_across_calls"] = 1
+
+    def the_cv():
+        return shared_cv if shared_cv is not None else build_cv(cvspec)
+
     # (b) serial
     est = build_estimator(spec)
     before = estimator_state(est)
     ok, got = call_verde(
-        lambda: vd.cross_val_score(est, *args, cv=build_cv(cvspec), scoring=build_scoring(scoring)),
+        lambda: vd.cross_val_score(est, *args, cv=the_cv(), scoring=build_scoring(scoring)),
         must,
         "serial cross_val_score",
     )
@@ -320,7 +328,7 @@ def run_cross_val(tape, stats):
     try:
         if mode in ("delayed_all", "delayed_each"):
             delayed = vd.cross_val_score(
-                est2, *args, cv=build_cv(cvspec), scoring=build_scoring(scoring), delayed=True
+                est2, *args, cv=the_cv(), scoring=build_scoring(scoring), delayed=True
             )
             caller_reuses()
 
@@ -350,7 +358,7 @@ def run_cross_val(tape, stats):
 
             def compute():
                 futures = vd.cross_val_score(
-                    est2, *args, cv=build_cv(cvspec), scoring=build_scoring(scoring), client=client
+                    est2, *args, cv=the_cv(), scoring=build_scoring(scoring), client=client
                 )
                 caller_reuses()
                 # results are requested in a tape-chosen order (the caller may wait on any future first)
